@@ -17,7 +17,8 @@
              not (transitively) inside a field that has the unknown-variant arm (decode.rs:269-295: optional fields); there
              the reader must answer UnknownVariant (guarantee 4 of the documentation speaks only about optional fields),
              and an unknown variant anywhere inside the value of such a field turns the whole field into its nil value. *)
-From MC Require Export DeriveCompat.
+From MC Require Export DeriveCompat DeriveKnown.
+From MC Require Import Acc.
 Local Open Scope N_scope.
 
 Section Mig.
@@ -103,3 +104,52 @@ Definition def_compat (dW dR : def) : Prop :=
 
 Definition schema_compat (ScW ScR : schema) : Prop :=
   forall d dW, nth_error ScW d = Some dW -> exists dR, nth_error ScR d = Some dR /\ def_compat dW dR.
+
+(* ---- the writer's value: its text strings are valid UTF-8 (a Rust String / &str always is; the model's value universe
+   lets a string leaf carry arbitrary bytes, and skip() validates text) ---- *)
+Section TextOk.
+Variable rec : nat -> value -> bool.
+
+Fixpoint text_fty (f : fty) (v : value) {struct f} : bool :=
+  match f, v with
+  | FTy t, _ => match ty_tree t v with Some e => Acc.utf8_ok e | None => true end
+  | FRef d, _ => rec d v
+  | FOpt f', VSome v' => text_fty f' v'
+  | FSeq f', VList l => forallb (text_fty f') l
+  | _, _ => true
+  end.
+
+Definition text_field (vs : list value) (pf : pfield) : bool :=
+  match f_codec (pf_fld pf) with
+  | CoCustom _ => true
+  | _ => text_fty (f_ty (pf_fld pf)) (pf_val vs pf)
+  end.
+
+Definition text_def (df : def) (v : value) : bool :=
+  match df, v with
+  | DStruct _ _ _ _ fs, VList vs => forallb (text_field vs) (sorted_fields fs)
+  | DEnum _ _ _ vars, VVar i (VList vs) =>
+      match find_variant vars i with
+      | Some va => forallb (text_field vs) (sorted_fields (v_fields va))
+      | None => true
+      end
+  | _, _ => true
+  end.
+End TextOk.
+
+Fixpoint text_f (k : nat) (Sc : schema) (d : nat) (v : value) : bool :=
+  match k with
+  | O => true
+  | S k' =>
+      match nth_error Sc d with
+      | Some df => text_def (fun d' v' => if Nat.ltb d' d then text_f k' Sc d' v' else true) df v
+      | None => true
+      end
+  end.
+Definition value_text_ok (Sc : schema) (d : nat) (v : value) : bool := text_f (S d) Sc d v.
+
+(* what C10_compat asks of the writer's value beyond being accepted by the derived encoder: valid UTF-8 text, and outside the
+   recorded class F14 (Model/DeriveKnown.v: a codec on a field whose Option is hidden behind a type alias, value None — there the
+   bytes are not the documented format; they are still read back, but this proof goes through the documented tree) *)
+Definition writer_value_ok (Sc : schema) (d : nat) (v : value) : bool :=
+  negb (known_alias_nil Sc d v) && value_text_ok Sc d v.
